@@ -24,8 +24,10 @@ func init() {
 			"for 1 in 4 cases `klog print FILE` (terminal report under no_colour or a colour theme, SGR stripped by the harness) and `klog json FILE` must show the same line/column/length/message and must not fail. " +
 			"non-trivial & distinct = (broken rule, position class, layout class, engine) combinations and distinct mutant texts, by hash",
 		Assumptions: []string{"faults whose line is ambiguous between two readings of the specification (Zs-only lines) are used for bounds/rendering only"},
-		Planned:     func(tier string, seed uint64) int64 { return map[string]int64{"quick": 30000, "thorough": 1200000}[tier] },
-		Run:         runC10,
+		Planned: func(tier string, seed uint64) int64 {
+			return map[string]int64{"quick": 30000, "thorough": 1200000}[tier]
+		},
+		Run: runC10,
 	})
 }
 
